@@ -40,10 +40,10 @@ import (
 func init() {
 	kit.Register(&kit.Spec{
 		ID:      "C33",
-		Rule:    "A: per case an arbiter set (1..36 members, some CRC members inactive), an era (heights around SchnorrStartHeight / CRClaimDPOSNodeStartHeight / DPOSNodeCrossChainHeight / CrossChainUTXORestrictionHeight), a payload version and ONE mutation of an otherwise honest withdrawal (signer list length around the threshold, duplicate / out-of-range / permuted indexes, wrong aggregate, non-Schnorr code, extra program, m/n/key-set changes, non-X input, recorded hash, wrong version for the height); B: per payload version a save/offer-again/rollback/offer-again history with real signatures. distinct = (provider, era, sizes, version, mutation, parameters); non-trivial = the real check returned a verdict (no panic) for a case whose arbiter set has >= 1 member",
+		Rule:    "A: per case an arbiter set (1..72 cross-chain arbiters: small sets, the 12+24=36 main-net shape, 33/36/40/64/65/72 and random sizes 33..72 as CRC+DPoS or CRC-only lists; some CRC members inactive), an era (heights around SchnorrStartHeight / CRClaimDPOSNodeStartHeight / DPOSNodeCrossChainHeight / CrossChainUTXORestrictionHeight), a payload version and ONE mutation of an otherwise honest withdrawal (signer list length around the threshold, duplicate indexes placed in every index region (0..31, 32..63, >=64, the last index; two copies up to the whole list) / out-of-range indexes (exactly len(arbiters), len+1, 255) / permuted indexes / honest lists of the highest indexes, wrong aggregate, non-Schnorr code, extra program, m/n/key-set changes, non-X input, recorded hash, wrong version for the height); B: per payload version a save/offer-again/rollback/offer-again history with real signatures. distinct = (provider, era, sizes, version, mutation, parameters); non-trivial = the real check returned a verdict (no panic) for a case whose arbiter set has >= 1 member",
 		Shards:  func(tier string) int { return 8 },
 		Run:     runC33,
-		Require: []string{"A_verdicts", "A_accept", "A_reject", "A_honest_accept", "A_provider:mock", "A_provider:real", "A_ver:V0", "A_ver:V1", "A_ver:V2", "A_era:1", "A_era:2", "A_era:3", "A_restriction_on", "A_restriction_off", "A_mut:dup-index", "A_mut:oob-index", "A_mut:short", "A_mut:wrong-aggregate", "A_mut:non-x-input", "A_mut:recorded-hash", "A_mut:m-low", "A_mut:key-replaced", "B_histories", "B_full_context_accept", "B_second_use_offered", "B_second_use_rejected", "B_pool_accept", "B_pool_conflict_rejected", "B_accept_after_rollback", "B_bad_signature_rejected", "B_live_block_with_withdrawal_connected", "B_live_reorgs", "B_live_reincluded_after_reorg", "B_non_x_input_rejected"},
+		Require: []string{"A_verdicts", "A_accept", "A_reject", "A_honest_accept", "A_provider:mock", "A_provider:real", "A_ver:V0", "A_ver:V1", "A_ver:V2", "A_era:1", "A_era:2", "A_era:3", "A_restriction_on", "A_restriction_off", "A_mut:dup-index", "A_mut:oob-index", "A_mut:dup-index-0-31", "A_mut:dup-index-32-63", "A_mut:dup-index-ge-64", "A_mut:dup-index-last", "A_mut:honest-high-indexes", "arbiter_sets_over_32", "arbiter_sets_over_64", "A_provider_over_32:mock", "A_provider_over_32:real", "honest_index_ge_32_accepted", "duplicate_index_lt_32_cases", "duplicate_index_lt_32_rejected", "duplicate_index_ge_32_cases", "duplicate_index_ge_32_rejected", "duplicate_index_32_63_rejected", "duplicate_index_ge_64_rejected", "duplicate_last_index_over_32_rejected", "whole_list_one_index_ge_32_rejected", "oob_at_len_cases", "oob_at_len_over_32_cases", "oob_at_len_over_32_rejected", "A_mut:short", "A_mut:wrong-aggregate", "A_mut:non-x-input", "A_mut:recorded-hash", "A_mut:m-low", "A_mut:key-replaced", "B_histories", "B_full_context_accept", "B_second_use_offered", "B_second_use_rejected", "B_pool_accept", "B_pool_conflict_rejected", "B_accept_after_rollback", "B_bad_signature_rejected", "B_live_block_with_withdrawal_connected", "B_live_reorgs", "B_live_reincluded_after_reorg", "B_non_x_input_rejected", "B_single_arbiter_index_lt_32_rejected_after_restriction", "B_single_arbiter_index_ge_32_rejected_after_restriction"},
 		Assumptions: []string{
 			"the arbiter set is injected (ArbitratorsMock, or members written into the real Arbiters object and its height switches); the withdrawal checks read it only through the Arbitrators interface",
 			"required number of signers = the era rule stated in the node's own error texts (2/3+1 of CRMemberCount, 2/3 between CRClaimDPOSNodeStartHeight and DPOSNodeCrossChainHeight); for V0/V1 m >= CRAgreementCount resp. NormalArbitratorsCount+1 resp. more than the majority count",
@@ -63,6 +63,7 @@ type c33Case struct {
 	R        uint32 `json:"restriction"`
 	NCRC     int    `json:"n_crc"`
 	NDpos    int    `json:"n_dpos"`
+	NCC      int    `json:"n_crosschain"`
 	Inactive []int  `json:"inactive_crc,omitempty"`
 	Ver      int    `json:"payload_version"`
 	Mut      string `json:"mutation"`
@@ -152,32 +153,58 @@ func c33Record(c *kit.Ctx, nd *node.Node) map[int]common.Uint256 {
 
 var c33Undo func() error
 
+// c33Members caches the member objects (they are only read by the code under
+// test; building one decodes its public key, which dominates the cost of a
+// case with a 72 member list).
+var c33Members = map[string]state.ArbiterMember{}
+
 func members(ks []arbKey, crcFlags []bool, nCRC int) []state.ArbiterMember {
 	var ms []state.ArbiterMember
 	for i, k := range ks {
-		if i < nCRC {
-			m, err := state.NewCRCArbiter(k.Pub, k.Pub, &crstate.CRMember{}, crcFlags[i])
+		id := fmt.Sprintf("%x/%v/%v", k.Pub, i < nCRC, i < nCRC && crcFlags[i])
+		m, ok := c33Members[id]
+		if !ok {
+			var err error
+			if i < nCRC {
+				m, err = state.NewCRCArbiter(k.Pub, k.Pub, &crstate.CRMember{}, crcFlags[i])
+			} else {
+				m, err = state.NewOriginArbiter(k.Pub)
+			}
 			if err != nil {
 				panic(err)
 			}
-			ms = append(ms, m)
-		} else {
-			m, err := state.NewOriginArbiter(k.Pub)
-			if err != nil {
-				panic(err)
-			}
-			ms = append(ms, m)
+			c33Members[id] = m
 		}
+		ms = append(ms, m)
 	}
 	return ms
 }
 
 var c33Heights = []uint32{100, 200, 300, 400}
 
+// c33MaxSet is the largest injected cross-chain arbiter list.
+const c33MaxSet = 72
+
+// c33LargeTotal draws the size of an arbiter set above 32 members (at least
+// min): the main-net 36, the sizes around the 32/64 word boundaries, 72, or
+// any size in between.
+func c33LargeTotal(r *rand.Rand, min int) int {
+	var cand []int
+	for _, t := range []int{33, 36, 36, 40, 64, 65, 72} {
+		if t >= min {
+			cand = append(cand, t)
+		}
+	}
+	if k := r.Intn(len(cand) + 3); k < len(cand) {
+		return cand[k]
+	}
+	return min + r.Intn(c33MaxSet-min+1)
+}
+
 func c33Sweep(c *kit.Ctx, nd *node.Node, r *rand.Rand, recorded map[int]common.Uint256) {
-	universe := arbKeys(400, 40)
+	universe := arbKeys(400, c33MaxSet+4)
 	outsiders := arbKeys(500, 6)
-	nCases := c.N(1300, 25000) // x 8 shards
+	nCases := c.N(1600, 30000) // x 8 shards
 	saveCfg := *nd.Cfg
 	saveCur, saveCRC := nd.Arbiters.CurrentArbitrators, nd.Arbiters.CurrentCRCArbitersMap
 	defer func() {
@@ -185,7 +212,7 @@ func c33Sweep(c *kit.Ctx, nd *node.Node, r *rand.Rand, recorded map[int]common.U
 		nd.Arbiters.CurrentArbitrators, nd.Arbiters.CurrentCRCArbitersMap = saveCur, saveCRC
 	}()
 	vMuts := map[int][]string{
-		2: {"honest", "honest", "permuted", "short", "short2", "empty-signers", "dup-index", "all-same-index", "oob-index", "oob-255", "wrong-aggregate", "aggregate-minus-one", "aggregate-plus-one", "non-schnorr-code", "multisig-code", "extra-wrong-program", "names-inactive", "non-x-input", "recorded-hash", "wrong-version-for-height", "longer-list"},
+		2: {"honest", "honest", "permuted", "honest-high-indexes", "short", "short2", "empty-signers", "dup-index", "all-same-index", "dup-index-0-31", "dup-index-32-63", "dup-index-ge-64", "dup-index-last", "dup-index-32-63", "dup-index-last", "oob-index", "oob-index", "oob-len-plus-one", "oob-255", "wrong-aggregate", "aggregate-minus-one", "aggregate-plus-one", "non-schnorr-code", "multisig-code", "extra-wrong-program", "names-inactive", "non-x-input", "recorded-hash", "wrong-version-for-height", "longer-list"},
 		1: {"honest", "honest", "keys-permuted", "m-low", "m-zero", "m-above-n", "n-plus", "n-minus", "key-replaced", "key-missing", "key-duplicated", "key-extra", "inactive-key-included", "garbage-code", "extra-wrong-program", "non-x-input", "recorded-hash", "wrong-version-for-height"},
 	}
 	vMuts[0] = vMuts[1]
@@ -210,6 +237,43 @@ func c33Sweep(c *kit.Ctx, nd *node.Node, r *rand.Rand, recorded map[int]common.U
 			if r.Intn(3) == 0 {
 				cs.NDpos = 24
 			}
+		}
+		// sets with more than 32 cross-chain arbiters (main-net shape 12+24 and
+		// beyond): always for the mutations that need an index region above 31,
+		// for a third of the other cases
+		minTotal := 0
+		if cs.Ver == 2 {
+			switch cs.Mut {
+			case "dup-index-32-63", "honest-high-indexes":
+				minTotal = 35 // index 32 exists even if two inactive CRC members drop out of the list
+			case "dup-index-ge-64":
+				minTotal = 67
+			case "dup-index-last", "oob-index", "oob-len-plus-one", "all-same-index", "dup-index":
+				if r.Intn(3) != 0 {
+					minTotal = 33
+				}
+			}
+		}
+		if minTotal == 0 && r.Intn(3) == 0 {
+			minTotal = 33
+		}
+		if minTotal > 0 {
+			total := c33LargeTotal(r, minTotal)
+			shape := r.Intn(4)
+			if cs.Era != 3 {
+				shape = 3 // before DPOSNodeCrossChainHeight the cross-chain list is the CRC list
+			}
+			switch shape {
+			case 0: // main-net shape: 12 CRC + DPoS arbiters
+				cs.NCRC = 12
+			case 1:
+				cs.NCRC = 1 + r.Intn(12)
+			case 2:
+				cs.NCRC = 13 + r.Intn(total-12)
+			default:
+				cs.NCRC = total
+			}
+			cs.NDpos = total - cs.NCRC
 		}
 		crcFlags := make([]bool, cs.NCRC)
 		for j := range crcFlags {
@@ -263,6 +327,7 @@ func c33Sweep(c *kit.Ctx, nd *node.Node, r *rand.Rand, recorded map[int]common.U
 		if env == nil {
 			return
 		}
+		cs.NCC = len(env.cc)
 		cfg := *nd.Cfg
 		cfg.SchnorrStartHeight = cs.S
 		cfg.CRConfiguration.CRClaimDPOSNodeStartHeight = cs.C
@@ -315,15 +380,16 @@ func c33Sweep(c *kit.Ctx, nd *node.Node, r *rand.Rand, recorded map[int]common.U
 		}
 		failed := c33Model(&cs, env, tx, refs, claimed, recorded)
 		accept := verdict == nil
+		c33Regions(c, &cs, env, failed, verdict)
 		if i < 3 && c.Shard == 0 {
 			c.Sample(map[string]interface{}{"part": "A", "case": cs, "real_accepts": accept, "model_failed_clauses": failed})
 		}
 		if accept {
 			c.Inc("A_accept")
 			if len(failed) > 0 {
-				c.Violate(failed[0], fmt.Sprintf("SpecialContextCheck accepts a payload-V%d withdrawal although: %s (mutation %s, height %d, %d cross-chain arbiters)", cs.Ver, strings.Join(failed, "; "), cs.Mut, cs.H, len(env.cc)), cs)
+				c.Violate(failed[0], fmt.Sprintf("SpecialContextCheck accepts a payload-V%d withdrawal although: %s (mutation %s, height %d, restriction height %d, %d cross-chain arbiters, signers %v)", cs.Ver, strings.Join(failed, "; "), cs.Mut, cs.H, cs.R, len(env.cc), cs.Signers), cs)
 			}
-			if cs.Mut == "honest" || cs.Mut == "permuted" || cs.Mut == "keys-permuted" {
+			if cs.Mut == "honest" || cs.Mut == "permuted" || cs.Mut == "keys-permuted" || cs.Mut == "honest-high-indexes" {
 				c.Inc("A_honest_accept")
 			}
 			if cs.Ver != 2 && (cs.M > cs.N || cs.N != cs.NKeys) {
@@ -355,6 +421,123 @@ func c33Sweep(c *kit.Ctx, nd *node.Node, r *rand.Rand, recorded map[int]common.U
 					c.Inc("A_honest_rejected")
 					c.Note("honest case rejected: %v  %+v", verdict, cs)
 				}
+			}
+		}
+	}
+}
+
+const c33DupClause = "accept:repeated-or-out-of-range-signer-index-after-restriction-height"
+
+// c33Regions counts (it decides nothing) which arbiter-set sizes and which
+// index regions of the signer list the verdicts covered: sets above 32 and 64
+// members, repeated indexes below 32 / in 32..63 / from 64 / at the last
+// index, and out-of-range indexes exactly at len(arbiters). "rejected" counts
+// only cases whose single defect (per the model) is the one named.
+func c33Regions(c *kit.Ctx, cs *c33Case, env *c33Env, failed []string, verdict error) {
+	n := len(env.cc)
+	if n > 32 {
+		c.Inc("arbiter_sets_over_32")
+		c.Inc("A_provider_over_32:" + cs.Provider)
+		c.Inc(fmt.Sprintf("A_ver_over_32:V%d", cs.Ver))
+		if n == 36 && cs.NCRC == 12 {
+			c.Inc("arbiter_sets_mainnet_shape_12+24")
+		}
+	}
+	if n > 64 {
+		c.Inc("arbiter_sets_over_64")
+	}
+	c.Max("max:cross_chain_arbiters", int64(n))
+	if cs.Ver != 2 {
+		return
+	}
+	c.Max("max:signer_list_length", int64(len(cs.Signers)))
+	count := map[int]int{}
+	oobAtLen, oob, maxIdx := false, false, -1
+	for _, s := range cs.Signers {
+		if s >= n {
+			oob = true
+			if s == n {
+				oobAtLen = true
+			}
+			continue
+		}
+		count[s]++
+		if s > maxIdx {
+			maxIdx = s
+		}
+	}
+	rejected := verdict != nil
+	only := func(clauses ...string) bool { // the model names exactly these clauses
+		return fmt.Sprint(failed) == fmt.Sprint(clauses)
+	}
+	dupLo, dupMid, dupHi, dupLast, whole := false, false, false, false, false
+	for idx, k := range count {
+		if k < 2 {
+			continue
+		}
+		switch {
+		case idx < 32:
+			dupLo = true
+		case idx < 64:
+			dupMid = true
+		default:
+			dupHi = true
+		}
+		if idx == n-1 {
+			dupLast = true
+		}
+		if k == len(cs.Signers) && idx >= 32 {
+			whole = true
+		}
+	}
+	on := cs.H >= cs.R
+	if !on {
+		if (dupMid || dupHi) && !rejected {
+			c.Inc("duplicate_index_ge_32_accepted_below_restriction(by design)")
+		}
+		if oobAtLen {
+			c.Inc("oob_at_len_below_restriction_cases")
+			if rejected {
+				c.Inc("oob_at_len_below_restriction_rejected")
+			}
+		}
+		return
+	}
+	if len(failed) == 0 && !rejected && maxIdx >= 32 {
+		c.Inc("honest_index_ge_32_accepted")
+		if maxIdx >= 64 {
+			c.Inc("honest_index_ge_64_accepted")
+		}
+		if maxIdx == n-1 {
+			c.Inc("honest_last_index_over_32_accepted")
+		}
+	}
+	single := only(c33DupClause)
+	dupText := rejected && strings.Contains(verdict.Error(), "duplicate schnorr withdraw signer index")
+	tally := func(is bool, name string) {
+		if !is || oob {
+			return
+		}
+		c.Inc(name + "_cases")
+		if single && rejected {
+			c.Inc(name + "_rejected")
+			if dupText {
+				c.Inc(name + "_rejected_with_the_duplicate_error")
+			}
+		}
+	}
+	tally(dupLo, "duplicate_index_lt_32")
+	tally(dupMid || dupHi, "duplicate_index_ge_32")
+	tally(dupMid, "duplicate_index_32_63")
+	tally(dupHi, "duplicate_index_ge_64")
+	tally(dupLast && n > 32, "duplicate_last_index_over_32")
+	tally(whole, "whole_list_one_index_ge_32")
+	if oobAtLen {
+		c.Inc("oob_at_len_cases")
+		if n > 32 {
+			c.Inc("oob_at_len_over_32_cases")
+			if rejected && only(c33DupClause, "accept:out-of-range-signer-index") {
+				c.Inc("oob_at_len_over_32_rejected")
 			}
 		}
 	}
@@ -532,12 +715,16 @@ func c33Build(r *rand.Rand, cs *c33Case, env *c33Env, outsiders []arbKey, record
 			}
 		}
 		r.Shuffle(len(pool), func(i, j int) { pool[i], pool[j] = pool[j], pool[i] })
+		if cs.Mut == "honest-high-indexes" {
+			// honest list of the highest active indexes (includes the last one)
+			sort.Sort(sort.Reverse(sort.IntSlice(pool)))
+		}
 		var sg []int
 		for i := 0; i < need && i < len(pool); i++ {
 			sg = append(sg, pool[i])
 		}
 		sort.Ints(sg)
-		if len(sg) < need && cs.Mut == "honest" {
+		if len(sg) < need && (cs.Mut == "honest" || cs.Mut == "honest-high-indexes") {
 			cs.Mut = "short" // not enough active members for an honest quorum
 		}
 		agg := sg
@@ -568,7 +755,48 @@ func c33Build(r *rand.Rand, cs *c33Case, env *c33Env, outsiders []arbKey, record
 				sg = append(sg, sg[0])
 			}
 			agg = sg
+		case "dup-index-0-31", "dup-index-32-63", "dup-index-ge-64", "dup-index-last":
+			// an otherwise honest list in which ONE index of the wanted region
+			// (the highest region the list has, if it is shorter) appears
+			// 2..len(list) times; the aggregate is the matching sum
+			t := c33DupTarget(r, cs.Mut, env)
+			if t >= 0 {
+				if len(sg) < 2 {
+					sg = []int{t, t}
+				} else {
+					pos := -1
+					for i, x := range sg {
+						if x == t {
+							pos = i
+						}
+					}
+					if pos < 0 {
+						pos = r.Intn(len(sg))
+						sg[pos] = t
+					}
+					copies := 2
+					switch r.Intn(4) {
+					case 0:
+						copies = 2 + r.Intn(len(sg)-1)
+					case 1:
+						copies = len(sg) // one arbiter stands in for the whole quorum
+					}
+					for _, q := range r.Perm(len(sg)) {
+						if copies <= 1 {
+							break
+						}
+						if q != pos {
+							sg[q] = t
+							copies--
+						}
+					}
+				}
+			}
+			agg = sg
 		case "all-same-index":
+			if len(sg) > 0 && nCC > 32 && r.Intn(2) == 0 {
+				sg[0] = sg[len(sg)-1] // the highest index of the list instead of the lowest
+			}
 			if len(sg) > 0 {
 				x := sg[0]
 				for i := range sg {
@@ -579,6 +807,11 @@ func c33Build(r *rand.Rand, cs *c33Case, env *c33Env, outsiders []arbKey, record
 		case "oob-index":
 			if len(sg) > 0 {
 				sg[len(sg)-1] = nCC
+			}
+			agg = sg
+		case "oob-len-plus-one":
+			if len(sg) > 0 {
+				sg[r.Intn(len(sg))] = nCC + 1
 			}
 			agg = sg
 		case "oob-255":
@@ -728,6 +961,43 @@ func c33Build(r *rand.Rand, cs *c33Case, env *c33Env, outsiders []arbKey, record
 	return tx, refs, claimed
 }
 
+// c33DupTarget picks the index a dup-index-<region> mutation repeats: an
+// active member of the region if there is one. A list that does not reach the
+// region gets the duplicate in its highest region.
+func c33DupTarget(r *rand.Rand, mut string, env *c33Env) int {
+	n := len(env.cc)
+	if n == 0 {
+		return -1
+	}
+	lo, hi := 0, n-1
+	switch mut {
+	case "dup-index-0-31":
+		hi = minInt(31, n-1)
+	case "dup-index-32-63":
+		lo, hi = 32, minInt(63, n-1)
+	case "dup-index-ge-64":
+		lo = 64
+	case "dup-index-last":
+		lo = n - 1
+	}
+	for lo > hi { // region not present in this list: one region down
+		lo -= 32
+		if lo < 0 {
+			lo = 0
+		}
+	}
+	var active []int
+	for i := lo; i <= hi; i++ {
+		if env.ccNormal[i] {
+			active = append(active, i)
+		}
+	}
+	if len(active) > 0 {
+		return active[r.Intn(len(active))]
+	}
+	return lo + r.Intn(hi-lo+1)
+}
+
 func maxInt(a, b int) int {
 	if a > b {
 		return a
@@ -784,7 +1054,7 @@ func c33Model(cs *c33Case, env *c33Env, tx interfaces.Transaction, refs map[*com
 			ks = append(ks, env.cc[s])
 		}
 		if cs.H >= cs.R && (oob || dup) {
-			failed = append(failed, "accept:repeated-or-out-of-range-signer-index-after-restriction-height")
+			failed = append(failed, c33DupClause)
 		}
 		if oob {
 			failed = append(failed, "accept:out-of-range-signer-index")
@@ -867,7 +1137,7 @@ func c33Histories(c *kit.Ctx, nd *node.Node, r *rand.Rand) {
 	// real X-address outputs: fund through a real block
 	xph := xHash("c33-live")
 	g := nd.GenesisUTXO()
-	nX := 30 * c.N(2, 6)
+	nX := 30*c.N(2, 6) + 8
 	per := common.Fixed64(10 * 1e8)
 	var outs []node.Out
 	for i := 0; i < nX; i++ {
@@ -1164,31 +1434,51 @@ func c33Histories(c *kit.Ctx, nd *node.Node, r *rand.Rand) {
 			c.Inc("B_live_reincluded_after_reorg")
 		}
 	}
-	// below the restriction height one arbiter can stand in for many (by design, counted):
-	nd.Cfg.CrossChainUTXORestrictionHeight = math.MaxUint32
-	{
-		signers := []uint8{3, 3, 3, 3, 3, 3, 3, 3, 3}
-		code, _ := schnorrCodeFor(arbs, signers)
+	// below the restriction height one arbiter can stand in for many (by design,
+	// counted); from it on never: with the 12 member list and with the
+	// main-net shaped 36 member list, whose indexes 32..35 lie above the first
+	// 32 (the lone arbiter really signs: its key times the list length)
+	big36 := arbKeys(600, 36)
+	for _, lone := range []struct{ set, idx int }{{12, 3}, {36, 3}, {36, 31}, {36, 32}, {36, 33}, {36, 35}} {
+		set := big36[:lone.set]
+		m := state.NewArbitratorsMock(originMembers(set), 0, lone.set*2/3)
+		m.CRCArbitrators = originMembers(set[:12])
+		blockchain.DefaultLedger.Arbitrators = m
+		nd.Cfg.CrossChainUTXORestrictionHeight = math.MaxUint32
+		signers := make([]uint8, 9)
+		for i := range signers {
+			signers[i] = uint8(lone.idx)
+		}
+		c.Begin("C33 B lone arbiter %d of %d", lone.idx, lone.set)
+		code, _ := schnorrCodeFor(set, signers)
 		u := takeX()
-		tx := withdrawTx(2, inputsOf([]node.UTXORef{u}), node.Key(8).ProgramHash, u.Value-fee, []common.Uint256{hashOf(fmt.Sprint("lone/", c.Shard))}, signers, []*pg.Program{{Code: code, Parameter: make([]byte, 64)}})
+		tx := withdrawTx(2, inputsOf([]node.UTXORef{u}), node.Key(8).ProgramHash, u.Value-fee, []common.Uint256{hashOf(fmt.Sprint("lone/", c.Shard, "/", lone.set, "/", lone.idx))}, signers, []*pg.Program{{Code: code, Parameter: make([]byte, 64)}})
 		buf := new(bytes.Buffer)
 		tx.SerializeUnsigned(buf)
-		d := new(big.Int).SetBytes(arbs[3].Acct.PrivKey())
+		d := new(big.Int).SetBytes(set[lone.idx].Acct.PrivKey())
 		d.Mul(d, big.NewInt(9)).Mod(d, crypto.N)
 		sig, err := crypto.AggregateSignatures([]*big.Int{d}, common.Sha256D(buf.Bytes()))
-		if err == nil {
-			tx.Programs()[0].Parameter = sig[:]
-			if e := ctxCheck(tx); e == nil {
-				c.Inc("B_single_arbiter_repeated_9x_accepted_below_restriction(by design)")
-			} else {
-				c.Inc("B_single_arbiter_repeated_rejected_below_restriction")
-			}
-			nd.Cfg.CrossChainUTXORestrictionHeight = 1
-			if e := ctxCheck(tx); e == nil {
-				c.Violate("accept:repeated-or-out-of-range-signer-index-after-restriction-height", "one arbiter named nine times, signature by 9*d: accepted by the complete context check at/after the restriction height", nil)
-			} else {
-				c.Inc("B_single_arbiter_repeated_rejected_after_restriction")
-			}
+		if err != nil {
+			continue
+		}
+		tx.Programs()[0].Parameter = sig[:]
+		region := "lt_32"
+		if lone.idx >= 32 {
+			region = "ge_32"
+		}
+		if e := ctxCheck(tx); e == nil {
+			c.Inc("B_single_arbiter_repeated_9x_accepted_below_restriction(by design)")
+		} else {
+			c.Inc("B_single_arbiter_repeated_rejected_below_restriction")
+		}
+		nd.Cfg.CrossChainUTXORestrictionHeight = 1
+		c.Case(fmt.Sprintf("B:lone:%d/%d", lone.idx, lone.set), true)
+		if e := ctxCheck(tx); e == nil {
+			c.Violate(c33DupClause, fmt.Sprintf("arbiter %d of %d named nine times, signature by 9*d: accepted by the complete context check at/after the restriction height", lone.idx, lone.set), nil)
+		} else {
+			c.Inc("B_single_arbiter_repeated_rejected_after_restriction")
+			c.Inc("B_single_arbiter_index_" + region + "_rejected_after_restriction")
 		}
 	}
+	blockchain.DefaultLedger.Arbitrators = mock
 }
